@@ -83,6 +83,7 @@ func Start() *Engine {
 				}
 			case req := <-e.updateDB:
 				logrus.Info("Update DB")
+				verifTrace("recvUpdate", 0, true)
 				logrus.Infof("-> %#v", req.expr)
 				logrus.Infof("-> %s", req.expr)
 				value, err := req.expr.Eval(ctx, global)
